@@ -320,6 +320,21 @@ def norm(t, hyp=frozenset()):
         out = _merge_ranges(k, out)
         if len(out) == 1 and out[0][0] == "fam":
             return norm(out[0], hyp)
+        if k == "kron":
+            # bilinearity: (c X) (x) Y = c (X (x) Y); identities of any sizes: I (x) I = I
+            cs, xs = [], []
+            for x in out:
+                if x[0] == "scal":
+                    cs.append(x[1])
+                    x = x[2]
+                if x == I and xs and xs[-1] == I:
+                    continue
+                xs.append(x)
+            if cs or len(xs) != len(out):
+                inner = xs[0] if len(xs) == 1 else ("kron", tuple(xs))
+                if not cs:
+                    return inner
+                return norm(("scal", cs[0] if len(cs) == 1 else ("smul", tuple(cs)), inner), hyp)
         return (k, tuple(out))
     if k == "famrange":
         return t
